@@ -380,6 +380,7 @@ pub fn run(tier: &str) -> i32 {
             upgrade_transparency: true,
             syncing_toggles: false,
             sync_gate: false,
+            gate_toggle: false,
         };
         let e = explore(&m, &Limits::new(3, if quick { 300 } else { 6000 }));
         rep.absorb(
